@@ -360,6 +360,7 @@ class Exec:
         self.stack = []
         self.solver_calls = 0
         self.pinned = []
+        self.obligations = 0
         self.pc = []
 
     # ---- symbolic choice
@@ -481,7 +482,7 @@ class Exec:
 
     def prove(self, cond, msg, info=None):
         """obligation: cond holds for every value satisfying the path condition"""
-        self.obligations = getattr(self, "obligations", 0) + 1
+        self.obligations += 1
         if isinstance(cond, SB):
             cond = cond.e
         if cond is True:
@@ -976,7 +977,7 @@ class Exec:
                 if w == v.w:
                     return SV(v.e, w, ty_signed(ty))
                 if w < v.w:
-                    return SV(z3.Extract(w - 1, 0, v.e), w, ty_signed(ty))
+                    return mk(z3.Extract(w - 1, 0, v.e), w, ty_signed(ty))
                 e = z3.SignExt(w - v.w, v.e) if v.signed else z3.ZeroExt(w - v.w, v.e)
                 return SV(e, w, ty_signed(ty))
             if ty_signed(ty):
@@ -1047,6 +1048,16 @@ def unescape_rust(s):
 
 # ------------------------------------------------------------------ arithmetic
 
+def mk(e, w, signed=False):
+    """simplify; fall back to a concrete python int when the term is a value"""
+    e = z3.simplify(e)
+    if z3.is_bv_value(e):
+        v = e.as_long()
+        if signed and v >> (w - 1):
+            v -= 1 << w
+        return v
+    return SV(e, w, signed)
+
 def _bv(v, w):
     if isinstance(v, SV):
         return v.e
@@ -1115,15 +1126,15 @@ def binop(ex, op, a, b, opa, opb, L, f):
         if wb < w: eb = z3.ZeroExt(w - wb, eb)
         elif wb > w: eb = z3.Extract(w - 1, 0, eb)
         eb = eb & z3.BitVecVal(w - 1, w)
-        if op.startswith("Shl"): return SV(ea << eb, w, signed)
-        return SV(ea >> eb if signed else z3.LShR(ea, eb), w, signed)
+        if op.startswith("Shl"): return mk(ea << eb, w, signed)
+        return mk(ea >> eb if signed else z3.LShR(ea, eb), w, signed)
     eb = _bv(b, w)
     if op == "Add": return SV(ea + eb, w, signed)
     if op == "Sub": return SV(ea - eb, w, signed)
     if op == "Mul": return SV(ea * eb, w, signed)
-    if op == "BitAnd": return SV(ea & eb, w, signed)
-    if op == "BitOr": return SV(ea | eb, w, signed)
-    if op == "BitXor": return SV(ea ^ eb, w, signed)
+    if op == "BitAnd": return mk(ea & eb, w, signed)
+    if op == "BitOr": return mk(ea | eb, w, signed)
+    if op == "BitXor": return mk(ea ^ eb, w, signed)
     if op == "Eq": return SB(ea == eb)
     if op == "Ne": return SB(ea != eb)
     if op == "Lt": return SB(ea < eb if signed else z3.ULT(ea, eb))
